@@ -196,7 +196,24 @@ fn c04() -> (bool, String) {
         let consent = match rep { Ok((p, v)) => (!up || p) && (!uv || v) && !(uv && cap != Some(true)), Err(_) => false };
         if !consent && outcome(true) != outcome(false) { return (true, format!("assert up={up} uv={uv} capability={cap:?} report={rep:?}: outcome differs with / without a matching credential while consent is missing")); }
     } } } }
-    (false, "consent truth table ok (2 ops x up x uv x 3 capabilities x 8 reports x credential present/absent)".into())
+    // the credential shown to the user is the one that is used: several credentials of the same RP, with and without an allow list
+    for n_creds in [2usize, 3] {
+        for allow in 0..3 {   // absent, naming the last credential, naming all in reverse order
+            let store = RefStore::new(2);
+            let mut ids = vec![];
+            for _ in 0..n_creds { ids.push(register(&store, "a.example", true)); }
+            let uvd = yes();
+            let mut a = Authenticator::new(Aaguid::new_empty(), store.clone(), uvd.clone());
+            let list = match allow { 0 => None, 1 => Some(vec![desc(&ids[n_creds - 1])]), _ => Some(ids.iter().rev().map(|i| desc(i)).collect()) };
+            let Ok(r) = block_on(a.get_assertion(ga_request("a.example", list, true, true))) else { return (true, format!("assertion with {n_creds} credentials failed")) };
+            let shown = uvd.shown.lock().unwrap().clone();
+            let used = r.credential.map(|c| c.id.to_vec());
+            if shown.len() != 1 || shown[0] != used {
+                return (true, format!("{n_creds} credentials of the RP, allow list shape {allow}: consent was collected for credential {:?} and the assertion was made with {:?}", shown.first(), used));
+            }
+        }
+    }
+    (false, "consent truth table ok (2 ops x up x uv x 3 capabilities x 8 reports x credential present/absent); shown credential = used credential".into())
 }
 
 fn c05() -> (bool, String) {
